@@ -41,7 +41,7 @@ func c01Key(class string, n int, fs bool) string {
 	return fmt.Sprintf("obj-%d", n)
 }
 
-var c01MetaClasses = []string{"none", "ctype", "usermeta", "encoding-disposition", "big", "highbytes", "repeated"}
+var c01MetaClasses = []string{"none", "ctype", "usermeta", "encoding-disposition", "big", "highbytes", "repeated", "default-ctype"}
 
 func c01Meta(class string, n int) http.Header {
 	h := http.Header{}
@@ -61,6 +61,9 @@ func c01Meta(class string, n int) http.Header {
 		h.Set("x-amz-meta-latin", fmt.Sprintf("caf\xe9 %d", n))
 		h.Set("Content-Disposition", "attachment; filename=\"na\xefve.txt\"")
 		h.Set("x-amz-meta-utf8", "caf\u00e9 \u65e5\u672c")
+	case "default-ctype":
+		// values a server may think of as "no Content-Type": they are headers like any other
+		h.Set("Content-Type", []string{"binary/octet-stream", "application/octet-stream", "application/xml", "text/plain; charset=utf-8"}[n%4])
 	case "repeated":
 		// the same header name on two lines
 		h.Add("x-amz-meta-rep", "one")
@@ -177,7 +180,7 @@ func sizeClassOf(n int) string {
 
 func runC01(c *Ctx) {
 	r := c.R
-	r.SetRule("body size ladder (0,1,2,15..17,511..513,4095..4097,32767..32769,65535..65537, 1 MiB-1/1 MiB/1 MiB+1, thorough also 3 MiB+7, plus random sizes) x byte pattern (zeros, 0xFF, all 256 values, CR/LF/NUL-heavy, random) x key class (plain, nested, needs-escaping, UTF-8, long, dotted) x metadata class x upload path (PUT, browser-form POST, copy, Go PutObject) on all seven backend configurations with integrity checking on and off; every upload is read back by GET, HEAD, List V1/V2 and the Go API, and every third one again after ten bystander requests (refused bucket delete/create, bucket sub-resource reads, reads and deletes of a never-written sibling key); overwrites go longer->shorter, and every fourth PUT / Go PutObject is repeated with the same bytes and other metadata; six objects per backend are also read by GET and HEAD through a real net/http server and their entity headers compared; distinct = (backend, integrity, upload path, size, pattern, key class, metadata class) with a body different from the key's previous body")
+	r.SetRule("body size ladder (0,1,2,15..17,511..513,4095..4097,32767..32769,65535..65537, 1 MiB-1/1 MiB/1 MiB+1, thorough also 3 MiB+7, plus random sizes) x byte pattern (zeros, 0xFF, all 256 values, CR/LF/NUL-heavy, random) x key class (plain, nested, needs-escaping, UTF-8, long, dotted) x metadata class x upload path (PUT, browser-form POST, copy, Go PutObject) on all seven backend configurations with integrity checking on and off; every upload is read back by GET, HEAD, List V1/V2 and the Go API, and every third one again after ten bystander requests (refused bucket delete/create, bucket sub-resource reads, reads and deletes of a never-written sibling key); overwrites go longer->shorter, every third PUT replaces an object that carries other values for the same headers (incl. the server's default Content-Type as the new value), and every fourth PUT / Go PutObject is repeated with the same bytes and other metadata; six objects per backend are also read by GET and HEAD through a real net/http server and their entity headers compared; distinct = (backend, integrity, upload path, size, pattern, key class, metadata class) with a body different from the key's previous body")
 	sizes := append([]int(nil), gen.SizeLadder...)
 	sizes = append(sizes, 1<<20-1, 1<<20, 1<<20+1)
 	if r.Thorough() {
@@ -230,6 +233,15 @@ func runC01(c *Ctx) {
 				h := meta.Clone()
 				if caseNo%2 == 0 {
 					h.Set("Content-MD5", drv.MD5B64(body))
+				}
+				if caseNo%3 == 0 {
+					// the key already holds an object with headers of its own: every header this PUT
+					// names must win over what was there
+					if pr := s.Put(bucket, key, []byte("earlier object"), drv.H("Content-Type", "text/x-earlier", "Content-Encoding", "identity", "Content-Disposition", "inline", "x-amz-meta-alpha", "earlier", "x-amz-meta-rep", "earlier", "x-amz-meta-latin", "earlier")); pr.Status != 200 {
+						r.Violation(sig("C01", backendClass(j.kind), "upload-refused", "put,"+sizeClassOf(size)), fmt.Sprintf("%s PUT of the earlier object: %s", j.kind, pr), respDesc(pr))
+						return
+					}
+					r.Count("puts_over_an_object_with_other_headers", 1)
 				}
 				up = s.Put(bucket, key, body, h)
 				exp.meta = meta
